@@ -139,6 +139,22 @@ def myrefs_in(data):
     return out
 
 
+def answers_in(data):
+    """top-level answer / error sequences the server wrote: {reqID: "answer" | "error"}"""
+    out = {}
+    depth = 0
+    toks = read_tokens(data)
+    for i, (t, h, b) in enumerate(toks):
+        if t == tokens.OPEN:
+            if depth == 0 and i + 2 < len(toks) and toks[i + 1][0] == tokens.STRING and toks[i + 1][2] in (b"answer", b"error") \
+                    and toks[i + 2][0] == tokens.INT:
+                out[toks[i + 2][1]] = toks[i + 1][2].decode()
+            depth += 1
+        elif t == tokens.CLOSE:
+            depth -= 1
+    return out
+
+
 # ------------------------------------------------------------------ the serving application
 class RIThing(RemoteInterface):
     hi = UnconstrainedMethod()
@@ -402,7 +418,7 @@ class System:
 
             def w(*a, _bound=bound, _name=name, **k):
                 if sys._getframe(1).f_code.co_name in ("doRemoteCall", "_doCall"):
-                    log.append(("broker", c, _name))
+                    log.append(("broker", c, _name, sorted(repr(list(v) if isinstance(v, bytes) else v) for v in list(a) + list(k.values()))))
                 return _bound(*a, **k)
             setattr(b, name, w)
 
@@ -551,6 +567,17 @@ class System:
                 elif kind == "Drop":
                     self.br[ev[1]].transport.loseConnection()
                     E.turn()
+                elif kind == "Burst":
+                    # several calls in ONE dataReceived (all parsed before any is delivered), then the reactor turns
+                    c = ev[1]
+                    b = self.br[c]
+                    if b.disconnected:
+                        out = "Dead"
+                    else:
+                        data = b"".join(enc_call(self.cnt[c], m[0], m[1], m[2], m[3], kw=(len(m) > 4 and m[4])) for m in ev[2])
+                        b.dataReceived(data)
+                        E.turn()
+                        out = None
                 elif kind in ("Msg", "Top"):
                     c = ev[1]
                     b = self.br[c]
@@ -572,7 +599,10 @@ class System:
         entered = []
         inst = []
         argv = None
+        raw = []          # parallel to `entered`: the log entries themselves
         for l in self.log:
+            if l[0] in ("enter", "broker", "init"):
+                raw.append(l)
             if l[0] == "enter":
                 if argv is None:
                     argv = l[3]
@@ -590,6 +620,8 @@ class System:
             c = ev[1]
             if self.br[c].disconnected:
                 out = "Aborted"
+            elif kind == "Burst":
+                out = "Burst"
             elif entered:
                 out = "Enter"
             else:
@@ -604,8 +636,38 @@ class System:
             except Exception:
                 sent[c] = [("unparsable", None)]
         snap = self.snapshot()
+        per = None
+        if kind == "Burst":
+            try:
+                ans = answers_in(written[ev[1]])
+            except Exception:
+                ans = {}
+            # attribute the entries (FIFO) to the calls: an answered call was entered; a call answered with an error was either
+            # refused, or one of the broker's methods was entered and raised (recognised by its name and arguments)
+            ents = [(e, r_) for e, r_ in zip(entered, raw) if not (e[0] == "broker" and e[2] == "doRemoteCall")]
+            per, per_entry, j = [], [], 0
+            for m in ev[2]:
+                a = ans.get(m[0])
+                took = None
+                if a == "answer":
+                    took = j if j < len(ents) else None
+                elif a == "error" and j < len(ents) and ents[j][0][0] == "broker" and m[1] == 0:
+                    e_, r_ = ents[j]
+                    try:
+                        same = e_[2] == PREFIX + bytes(m[2]).decode("utf-8")
+                    except UnicodeDecodeError:
+                        same = False
+                    vals = sorted(repr(list(x[1]) if x[0] == "B" else x[1]) for x in m[3] if x[0] in ("I", "B"))
+                    if same and len(vals) == len(m[3]) and vals == r_[3]:
+                        took = j
+                if took is not None:
+                    j += 1
+                per.append("Enter" if took is not None or a == "answer" else "Reject" if a == "error" else "None")
+                per_entry.append(None if took is None else ents[took][0])
+            if j != len(ents):
+                per_entry.append(("unattributed", ents[j:]))
         return dict(out=out, entered=entered, inst=inst, sent=sent, snap=snap, exc=exc, argv=argv, dials=list(self.dials),
-                    answered={c: len(written[c]) > 0 for c in written})
+                    answered={c: len(written[c]) > 0 for c in written}, per=per, per_entry=per_entry if kind == "Burst" else None)
 
 
 def world_description(sysm):
